@@ -773,6 +773,18 @@ func (z *Decimal) FMA(x, y, u *Decimal) *Decimal {
 	}
 
 	if u.form == zero {
+		if x.form == zero && y.form != inf || y.form == zero && x.form != inf {
+			// (±0 * y) + ±0 is a sum of zeros: follow the IEEE 754 sign
+			// rule for sums instead of returning the product's sign.
+			neg := x.neg != y.neg
+			if neg != u.neg {
+				neg = z.mode == ToNegativeInf
+			}
+			z.acc = Exact
+			z.form = zero
+			z.neg = neg
+			return z
+		}
 		return z.Mul(x, y)
 	}
 	// 0 < |u| <= Inf
